@@ -1531,6 +1531,9 @@ def rule_round5(repo, rep):
     """(r) assertions that a small slip turns into a crash for a class of valid models."""
     from ..exprnorm import comparison
 
+    rule_conditionally_assigned(repo, rep)
+    rule_constness_of_encoded_operands(repo, rep)
+    rule_scalar_conversion(repo, rep)
     rep.clause("C13-s", "after a Reshape has been bypassed no later rewrite re-derives an operator's OFM shape from the re-shaped tensor (the command generators assert that IFM, IFM2 and OFM shapes of an "
                "operator are consistent: an inconsistent view aborts the compilation) [rule shared with C02-m]")
     from . import c02 as _c02
@@ -1566,3 +1569,184 @@ def rule_round5(repo, rep):
               "the scale-only tensor keeps the cached weights' compression key with its own scale key: linear_allocate_live_ranges asserts that equal weight keys imply equal scale keys "
               "(two operators sharing weights with different bias / scales -> AssertionError traceback)")
     rep.floor("C13-r", 3)
+
+
+# reviewed: (module, function, local) -> why the unassigned path cannot be taken
+_COND_ONLY_OK = {
+    ("debug_database", "DebugDatabase.add_stream", "uid"): "called once per NPU subgraph of a compilation and the table is emptied at every entry point (C14-a): the key is always new",
+    ("high_level_command_stream_generator", "generate_high_level_commands_for_sched_op", "pad_top"): "every scheduled NPU operation has an IFM (SchedulerOperation takes it from the pass's ifm_tensor, which pass packing requires)",
+    ("high_level_command_stream_generator", "generate_high_level_commands_for_sched_op", "pad_bottom"): "as pad_top",
+}
+
+
+def rule_conditionally_assigned(repo, rep):
+    """(t) UnboundLocalError: a local whose every assignment sits inside an `if` (no branch pair covers both outcomes, no initialisation
+    before) and that is read later outside any test that mentions the same condition or the local itself."""
+    rep.clause("C13-t", "no local variable is assigned only under a condition and read where that condition is not known to hold (UnboundLocalError for the inputs that take the other branch)")
+
+    def tnames(e):
+        return {y.id for y in ast.walk(e) if isinstance(y, ast.Name)} | {y.attr for y in ast.walk(e) if isinstance(y, ast.Attribute)}
+
+    nfun = 0
+    hits = 0
+    for m in repo.core_modules():
+        for q, fn in m.functions.items():
+            if "." in q and q.split(".")[0] in m.functions:
+                continue
+            nfun += 1
+            par = m.parents
+            params = {a.arg for a in fn.args.args + fn.args.kwonlyargs + fn.args.posonlyargs}
+            stores = {}
+            for x in walk_no_nested(fn):
+                if isinstance(x, ast.Name) and isinstance(x.ctx, ast.Store):
+                    stores.setdefault(x.id, []).append(x)
+            for name, sts in stores.items():
+                if name in params:
+                    continue
+                conds = []
+                ok = True
+                for s_ in sts:
+                    p_ = par.get(s_)
+                    while p_ is not None and not isinstance(p_, (ast.Assign, ast.AugAssign, ast.AnnAssign, ast.For, ast.With, ast.ExceptHandler, ast.comprehension, ast.NamedExpr, ast.Import, ast.ImportFrom)):
+                        p_ = par.get(p_)
+                    if not isinstance(p_, ast.Assign):
+                        ok = False
+                        break
+                    cur, ifs = p_, []
+                    while cur is not fn and cur is not None:
+                        pp = par.get(cur)
+                        if isinstance(pp, ast.If) and (cur in pp.body or cur in pp.orelse):
+                            ifs.append(pp)
+                        if isinstance(pp, (ast.Try, ast.ExceptHandler)):
+                            ok = False
+                        cur = pp
+                    if not ifs:
+                        ok = False
+                        break
+                    conds.append(ifs)
+                if not ok:
+                    continue
+
+                def holds(block):
+                    return any(any(x is s_ for x in ast.walk(ast.Module(body=block, type_ignores=[]))) for s_ in sts)
+
+                covered = any(holds(i_.body) and i_.orelse and (holds(i_.orelse) or isinstance(i_.orelse[-1], (ast.Return, ast.Raise, ast.Continue, ast.Break))) for ifs in conds for i_ in ifs)
+                if covered:
+                    continue
+                guard_names = set().union(*[tnames(i_.test) for ifs in conds for i_ in ifs]) | {name}
+                first = min(s_.lineno for s_ in sts)
+                for x in walk_no_nested(fn):
+                    if not (isinstance(x, ast.Name) and x.id == name and isinstance(x.ctx, ast.Load) and x.lineno > first):
+                        continue
+                    cur, correlated = x, False
+                    while cur is not fn and cur is not None:
+                        pp = par.get(cur)
+                        if isinstance(pp, (ast.If, ast.IfExp, ast.While)) and cur is not pp.test and tnames(pp.test) & guard_names:
+                            correlated = True
+                        if isinstance(pp, ast.BoolOp) and any(v is not cur and tnames(v) & guard_names for v in pp.values):
+                            correlated = True
+                        cur = pp
+                    if correlated:
+                        continue
+                    hits += 1
+                    key = (m.name, q, name)
+                    site = f"{m.rel}:{q}"
+                    if key in _COND_ONLY_OK:
+                        rep.ok("C13-t", site, f"`{name}` is assigned under a condition only [reviewed: {_COND_ONLY_OK[key]}]")
+                    else:
+                        rep.bad("C13-t", site, f"`{name}` is assigned only under `{str(norm(conds[0][0].test))[:60]}` and read unconditionally (line of `{str(norm(par.get(x)))[:60]}`)",
+                                "UnboundLocalError when the condition is false"
+                                + (" (demonstrated: a subgraph whose only operator has no inputs, e.g. a CUSTOM operator without operands: 'cannot access local variable startup_ps')" if name == "startup_ps" else ""))
+                    break
+    if nfun < 900:
+        raise AnalysisError(f"only {nfun} functions scanned")
+    rep.ok("C13-t", "ethosu/vela", f"{nfun} functions scanned, {hits} conditionally assigned locals with an unguarded read")
+    rep.floor("C13-t", 2)
+
+
+def rule_scalar_conversion(repo, rep):
+    """(u) `int(t.values)` raises TypeError (NumPy >= 2) unless the array is 0-dimensional. Operand tensors such as a SPLIT axis may be 0-d or a
+    one-element 1-D array (the semantic checks accept both), so every such conversion is made under a test that the array is a scalar
+    (`.values.ndim == 0`, `.shape == []`), or goes through an element access."""
+    rep.clause("C13-u", "int(<tensor>.values) is applied only to arrays known to be 0-dimensional (a scalar test on the same tensor guards it); one-element 1-D operands are read through an element access")
+    n = 0
+    for m in repo.core_modules():
+        if m.name.startswith("tosa_") or "/test/" in m.rel:
+            continue
+        for q, fn in m.functions.items():
+            if "." in q and q.split(".")[0] in m.functions:
+                continue
+            for c in walk_no_nested(fn):
+                if not (isinstance(c, ast.Call) and isinstance(c.func, ast.Name) and c.func.id == "int" and len(c.args) == 1 and isinstance(c.args[0], ast.Attribute) and c.args[0].attr == "values"):
+                    continue
+                base = str(norm(c.args[0].value))
+                n += 1
+                cur, guarded = c, False
+                while cur is not fn and cur is not None:
+                    pp = m.parents.get(cur)
+                    if isinstance(pp, (ast.If, ast.IfExp)) and cur is not pp.test:
+                        t = str(norm(pp.test))
+                        in_body = (cur in pp.body) if isinstance(pp, ast.If) else (cur is pp.body)
+                        scalar_true = any(x in t for x in (f"{base}.values.ndim == 0", f"{base}.shape == []", f"len({base}.shape) == 0", f"{base}.values.shape == ()"))
+                        scalar_false = any(x in t for x in (f"{base}.values.ndim != 0", f"{base}.values.ndim > 0", f"{base}.shape != []"))
+                        if (scalar_true and in_body) or (scalar_false and not in_body):
+                            guarded = True
+                    cur = pp
+                if (m.name, q) == ("operation", "Operation.get_concat_inputs_axis"):
+                    # reviewed: the branch is taken for Op.Concat only, which the TFLite reader never produces (CONCATENATION maps to ConcatTFLite, whose axis is an option)
+                    tm_ = repo.mod("tflite_mapping")
+                    if "Op.Concat," in tm_.src or "Op.Concat)" in tm_.src:
+                        raise AnalysisError("tflite_mapping now maps an operator to Op.Concat: the exemption of get_concat_inputs_axis no longer holds")
+                    rep.ok("C13-u", f"{m.rel}:{q}", f"`{str(norm(c))}` [reviewed: Op.Concat is not reachable from a TFLite model]")
+                    continue
+                rep.check(guarded, "C13-u", f"{m.rel}:{q}", f"`{str(norm(c))}` is made under a test that `{base}` is 0-dimensional",
+                          "no such test: a one-element 1-D array (accepted by the semantic checks for SPLIT / SPLIT_V axes) makes int() raise `TypeError: only 0-dimensional arrays can be converted to "
+                          "Python scalars` under NumPy >= 2 (demonstrated: SPLIT whose axis tensor has shape [1])")
+    rep.floor("C13-u", 6)
+
+
+def rule_constness_of_encoded_operands(repo, rep):
+    """(m') the weight / bias encoder reads `.values` of the weight and the bias tensor of every operator placed on the NPU. Constness has to be
+    established by a registered constraint for each of the two roles: wherever shape / type constraints of a role are registered for a list of
+    operator types, a constraint that is false for `<role>.values is None` is registered for the same list."""
+    rep.clause("C13-m'", "for every operator list for which bias (weights) constraints are registered, a constraint that rejects a non-constant bias (weights) tensor is registered too: "
+               "the encoder reads the values of both")
+    so = repo.mod("tflite_supported_operators")
+    init = so.func("TFLiteSupportedOperators.__init__")
+
+    def rejects_nonconst(fname, role):
+        fn = so.functions.get(f"TFLiteSupportedOperators.{fname}")
+        if fn is None:
+            return False
+        alias = {role, f"op.{role}"} | {str(norm(st.targets[0])) for st in ast.walk(fn) if isinstance(st, ast.Assign) and str(norm(st.value)) == f"op.{role}"}
+        for st in ast.walk(fn):
+            # valid = <role>.values is not None
+            if isinstance(st, ast.Assign) and str(norm(st.targets[0])) == "valid" and any(str(norm(st.value)) in (f"{a}.values is not None", f"{a} is None or {a}.values is not None", f"not {a} or {a}.values is not None") for a in alias):
+                return True
+            # if <role>.values is None: return False, ...
+            if isinstance(st, ast.If) and any(f"{a}.values is None" in str(norm(st.test)) for a in alias):
+                for r_ in st.body:
+                    if isinstance(r_, ast.Return) and isinstance(r_.value, ast.Tuple) and isinstance(r_.value.elts[0], ast.Constant) and r_.value.elts[0].value is False:
+                        return True
+        return False
+
+    enc = repo.mod("weight_compressor").func("_prepare_scale_and_bias")
+    reads_bias = any(isinstance(x, ast.Attribute) and x.attr == "values" for x in ast.walk(enc))
+    if not reads_bias:
+        raise AnalysisError("_prepare_scale_and_bias no longer reads tensor values")
+    nblocks = 0
+    for loop in [l for l in ast.walk(init) if isinstance(l, ast.For)]:
+        regs = [str(norm(c.args[0])).split(".")[-1] for c in ast.walk(loop) if isinstance(c, ast.Call) and isinstance(c.func, ast.Attribute) and c.func.attr == "append" and "specific_constraints" in str(norm(c.func.value)) and c.args]
+        for role in ("bias", "weights"):
+            role_regs = [r_ for r_ in regs if r_.startswith(f"constraint_{role}_")]
+            if not role_regs:
+                continue
+            nblocks += 1
+            ok = any(rejects_nonconst(r_, role) for r_ in regs)
+            rep.check(ok, "C13-m'", "ethosu/vela/tflite_supported_operators.py:TFLiteSupportedOperators.__init__",
+                      f"operators in `{str(norm(loop.iter)).split('.')[-1]}`: a registered constraint rejects a non-constant {role} tensor (registered for the role: {', '.join(role_regs)})",
+                      f"none of {role_regs} is false for `{role}.values is None`: the operator is placed on the NPU and the encoder reads the values"
+                      + (" (demonstrated: CONV_2D with constant weights and a bias computed at run time: `TypeError: object of type 'NoneType' has no len()` in _prepare_scale_and_bias)" if role == "bias" else ""))
+    if nblocks < 4:
+        raise AnalysisError(f"only {nblocks} registration blocks with weight / bias constraints found")
+    rep.floor("C13-m'", 4)
